@@ -85,7 +85,7 @@ PROPS["C09"] = dict(
                 "moves (lf, bs, print_char, print_value).",
 )
 PROPS["C03"] = dict(
-    units=["term_core", "ansi_cmds", "emu_avatar"],
+    units=["term_core", "ansi_cmds", "emu_avatar", "sixel"],
     trusted_base=TERM_TRUST, unverified_remainder=TERM_REMAINDER + ["macro recursion, hex macros, sixel repeat/raster, font loaders (units pending)"],
     explanation="Every loop of the screen operations has a decreases measure (termination proved) and iterates over ranges bounded "
                 "by the margins / screen / row count, not by numeric parameters; erase_charcter's count is proved clamped to the width.",
@@ -139,4 +139,20 @@ PROPS["C10"] = dict(
     unverified_remainder=["`unsafe impl Send/Sync for DrawExecutor` in igs/paint.rs (not a conversion; outside this property)"],
     explanation="After the repairs recorded in known_findings.txt only two unchecked conversions remain in non-test code; each is pinned by the scan and "
                 "its operand domain is decided by a loop-free Kani harness over all inputs. Any new or modified unchecked-conversion site fails the scan.",
+)
+
+PROPS["C14"] = dict(
+    units=["sixel", "sixel_threads"],
+    trusted_base=COMMON_TRUST + [
+        "std thread semantics behind the two assumed specs of the abstract handle: JoinHandle::is_finished answers true only for a terminated thread and never blocks; join on a terminated thread returns at once with the closure's value",
+        "O1 stub vx_feed_chars: the `for ch in data.chars() { self.parse_char(ch)? }` shell of SixelParser::parse_from (&str iteration) is assumed to be a sequence of parse_char steps (each proved to keep the row invariant)",
+        "the sixel palette (Palette::{len,get_color,set_color_rgb,set_color_hsl}) is used through stubs that only track its length; Buffer::get_font_dimensions (font table lookup), Sixel::get_screen_rect and Rectangle::contains_rect are assumed total",
+        "sixel payloads are shorter than 2^24 data characters",
+    ],
+    unverified_remainder=["placement ORDER of the decoded images in layers[0].sixels and the shadow-removal filter are not given a functional postcondition yet (the FIFO consumption of the queue is)",
+                          "consistency with a declared raster size beyond the SIXEL_MAX_DIM bound"],
+    explanation="SixelParser: the invariant 'every pixel row holds whole RGBA pixels' is preserved by translate_sixel_to_pixel, parse_sixel_data and parse_char in all four states, and "
+                "parse_from is proved to return picture_data.len() == 4 * width * height for every payload. Buffer::update_sixel_threads is proved against an abstract thread queue whose "
+                "is_finished() is unconstrained (= every completion schedule and every placement of polls): exactly a prefix of the queue is consumed (FIFO, no loss, no duplication) and join() is "
+                "only reached for terminated threads (never blocks).",
 )
